@@ -272,7 +272,14 @@ func (tc *TypeCtx) wf(x string, t types.Type, w string) string {
 		if u.Info()&types.IsString != 0 {
 			return and(app(">=", app("strlen", x), "0"), app("<", app("strlen", x), "9223372036854775808"))
 		}
-	case *types.Pointer, *types.Map, *types.Chan, *types.Signature:
+	case *types.Map:
+		// ext_mapiter.go: a map object has one underlying map type (maps of different types never alias)
+		mt := tc.mapTypeFact(x, u)
+		if w != "" {
+			return and(app("<", app("root", x), w), app(">=", app("root", x), "0"), mt)
+		}
+		return mt
+	case *types.Pointer, *types.Chan, *types.Signature:
 		if w != "" {
 			return and(app("<", app("root", x), w), app(">=", app("root", x), "0"))
 		}
